@@ -809,6 +809,7 @@ fn reaches_ree(dt: &DType, v: &Value) -> bool {
 
 /// Run-end encoding is kept at the top of the type only: run arrays nested inside lists / structs make
 /// arrow's own `concat` (used by `iter_to_array`) fail on empty runs, which is not DataFusion's logic.
+/// For the same reason nested dictionaries get at least 16-bit keys.
 fn strip_inner_ree(dt: DType, top: bool) -> DType {
     use DType::*;
     let b = |d: DType| Box::new(strip_inner_ree(d, false));
@@ -817,7 +818,16 @@ fn strip_inner_ree(dt: DType, top: bool) -> DType {
             let inner = strip_inner_ree(*v, false);
             if top { RunEndEncoded(w, Box::new(inner)) } else { inner }
         }
-        Dictionary(k, v) => Dictionary(k, b(*v)),
+        Dictionary(k, v) => {
+            // 8-bit keys only at the top: arrow's concat / take of nested arrays appends dictionaries without
+            // de-duplication and panics with DictionaryKeyOverflowError once > 127 / 255 entries accumulate
+            let k = match (top, k) {
+                (false, IntW::I8) => IntW::I16,
+                (false, IntW::U8) => IntW::U16,
+                (_, k) => k,
+            };
+            Dictionary(k, b(*v))
+        }
         List(c) => List(b(*c)),
         LargeList(c) => LargeList(b(*c)),
         ListView(c) => ListView(b(*c)),
